@@ -1,4 +1,5 @@
-/- helper lemmas for C11 (extend) -/
+/- helper lemmas for C11 (extend): list facts, one term kind, the body of Atoms.extend in named pieces, atoms, index
+   conversion, label merge, extension without identity map (also used by C12) -/
 import MofunModel.Model.Topo
 namespace Mofun
 
@@ -413,7 +414,7 @@ theorem foldl_extStep_getElem? (a1 b : Atoms) (offs : Offsets) (map : List (Nat 
           simp only [Option.map_some, selfRow, srcOf]
           cases srcOf m i <;> simp [e]
 
-theorem filterMap_congr_mem {α β} (l : List α) (f g : α → Option β) (h : ∀ x ∈ l, f x = g x) :
+theorem filterMap_congr_of_mem {α β} (l : List α) (f g : α → Option β) (h : ∀ x ∈ l, f x = g x) :
     l.filterMap f = l.filterMap g := by
   induction l with
   | nil => rfl
@@ -430,7 +431,7 @@ theorem range'_filter_filterMap {α β} (l : List α) (p : Nat → Bool) (g : α
   | cons x xs ih =>
     have hrest : ((List.range' (s + 1) xs.length).filter p).filterMap (fun i => ((x :: xs)[i - s]?).map g)
         = ((List.range' (s + 1) xs.length).filter p).filterMap (fun i => (xs[i - (s + 1)]?).map g) := by
-      apply filterMap_congr_mem
+      apply filterMap_congr_of_mem
       intro i hi
       have hi' := (List.mem_range'_1.mp (List.mem_filter.mp hi).1).1
       have : i - s = (i - (s + 1)) + 1 := by omega
@@ -608,7 +609,7 @@ theorem extAdded_getElem? (a1 b : Atoms) (offs : Offsets) (map : List (Nat × Na
       = (extToAdd b map).map (fun i => appendRow a1 b offs ((b.atoms[i]?).getD default)) := by
     unfold extAdded
     rw [← List.filterMap_eq_map]
-    apply filterMap_congr_mem
+    apply filterMap_congr_of_mem
     intro i hi
     have hlt := ((mem_extToAdd b map i).mp hi).1
     simp [List.getElem?_eq_getElem hlt, appendRow, extBx, List.getD_eq_getElem?_getD]
@@ -624,5 +625,352 @@ theorem length_foldl_extStep (a1 b : Atoms) (offs : Offsets) (map : List (Nat ×
     rw [List.foldl_cons, ih]
     unfold extStep
     split <;> simp
+
+/-! ### label merge, padding, re-layout (`_extend_extra_fields`) -/
+
+theorem mem_dedup_iff {α} [DecidableEq α] (l : List α) (x : α) : x ∈ dedup l ↔ x ∈ l := by
+  induction l with
+  | nil => simp [dedup]
+  | cons y ys ih =>
+    unfold dedup
+    by_cases e : x = y
+    · simp [e]
+    · simp [List.mem_filter, ih, e]
+
+theorem mem_of_mem_dedup {α} [DecidableEq α] (l : List α) (x : α) (h : x ∈ dedup l) : x ∈ l :=
+  (mem_dedup_iff l x).mp h
+
+theorem dedup_sublist {α} [DecidableEq α] (l : List α) : (dedup l).Sublist l := by
+  induction l with
+  | nil => exact List.Sublist.slnil
+  | cons y ys ih =>
+    unfold dedup
+    exact List.Sublist.cons_cons y ((List.filter_sublist).trans ih)
+
+theorem dedup_nodup {α} [DecidableEq α] (l : List α) : (dedup l).Nodup := by
+  induction l with
+  | nil => simp [dedup]
+  | cons y ys ih =>
+    unfold dedup
+    refine List.nodup_cons.mpr ⟨?_, ih.sublist List.filter_sublist⟩
+    simp [List.mem_filter]
+
+theorem mem_mergeLabels (mine theirs : List String) (l : String) :
+    l ∈ mergeLabels mine theirs ↔ l ∈ mine ∨ l ∈ theirs := by
+  unfold mergeLabels
+  simp only [List.mem_append, List.mem_filter, mem_dedup_iff]
+  constructor
+  · rintro (h | ⟨h, _⟩)
+    · exact Or.inl h
+    · exact Or.inr h
+  · intro h
+    by_cases hm : l ∈ mine
+    · exact Or.inl hm
+    · rcases h with h | h
+      · exact absurd h hm
+      · exact Or.inr ⟨h, by simpa using hm⟩
+
+theorem mergeLabels_nodup (mine theirs : List String) (h : mine.Nodup) : (mergeLabels mine theirs).Nodup := by
+  unfold mergeLabels
+  refine List.nodup_append.mpr ⟨h, (dedup_nodup theirs).sublist List.filter_sublist, ?_⟩
+  intro a ha b hb e
+  subst e
+  have := (List.mem_filter.mp hb).2
+  simp [ha] at this
+
+theorem mergeLabels_take (mine theirs : List String) : (mergeLabels mine theirs).take mine.length = mine := by
+  unfold mergeLabels; simp
+
+theorem mergeLabels_drop_sublist (mine theirs : List String) :
+    ((mergeLabels mine theirs).drop mine.length).Sublist theirs := by
+  unfold mergeLabels
+  simp only [List.drop_left]
+  exact (List.filter_sublist).trans (dedup_sublist theirs)
+
+theorem padRow_length (row : List String) (w : Nat) : (padRow row w).length = max row.length w := by
+  simp [padRow]; omega
+
+theorem padRow_getElem? (row : List String) (w i : Nat) (hw : row.length ≤ w) (hi : i < w) :
+    (padRow row w)[i]? = some (row.getD i ".") := by
+  unfold padRow
+  by_cases h : i < row.length
+  · rw [List.getElem?_append_left h]
+    simp [List.getD_eq_getElem?_getD, List.getElem?_eq_getElem h]
+  · rw [List.getElem?_append_right (by omega)]
+    have : i - row.length < w - row.length := by omega
+    simp [List.getD_eq_getElem?_getD, List.getElem?_eq_none (Nat.le_of_not_lt h), this]
+
+theorem matchRow_length (labels otherLabels row : List String) :
+    (matchRow labels otherLabels row).length = labels.length := by
+  simp [matchRow]
+
+/-- placement by label: column `i` of the re-laid-out row carries the value the other row has under the same label
+    (at the label's position `j` in the other label list), and "." when the other structure has no such label -/
+theorem matchRow_placed (labels otherLabels row : List String) (hnd : otherLabels.Nodup) (i : Nat) (l : String)
+    (hl : labels[i]? = some l) :
+    (∀ j, otherLabels[j]? = some l → (matchRow labels otherLabels row)[i]? = some (row.getD j "."))
+    ∧ (l ∉ otherLabels → (matchRow labels otherLabels row)[i]? = some ".") := by
+  unfold matchRow
+  rw [List.getElem?_map, hl, Option.map_some]
+  constructor
+  · intro j hj
+    rw [indexOf?_nodup otherLabels hnd l j hj]
+  · intro hno
+    rw [indexOf?_none otherLabels l hno]
+
+/-! ### extending by a structure with the same label lists and no identity map -/
+
+theorem mergeLabels_self (l : List String) : mergeLabels l l = l := by
+  unfold mergeLabels
+  have : (dedup l).filter (fun x => !l.contains x) = [] := by
+    apply List.filter_eq_nil_iff.mpr
+    intro x hx
+    simp [mem_of_mem_dedup l x hx]
+  rw [this, List.append_nil]
+
+theorem padRow_of_length (row : List String) (w : Nat) (h : row.length = w) : padRow row w = row := by
+  simp [padRow, h]
+
+theorem matchRow_self (l : List String) (hnd : l.Nodup) (row : List String) (h : row.length = l.length) :
+    matchRow l l row = row := by
+  apply List.ext_getElem?
+  intro i
+  unfold matchRow
+  rw [List.getElem?_map]
+  by_cases hi : i < l.length
+  · rw [List.getElem?_eq_getElem hi, Option.map_some,
+      indexOf?_nodup l hnd l[i] i (List.getElem?_eq_getElem hi)]
+    have hi' : i < row.length := by omega
+    simp [List.getD_eq_getElem?_getD, List.getElem?_eq_getElem hi']
+  · rw [List.getElem?_eq_none (by omega), List.getElem?_eq_none (by omega)]; rfl
+
+/-- `extendWith` succeeds as soon as the conversion is defined on every atom used -/
+theorem extendWith_total (mine other : TermTable) (off : Nat) (conv : Nat → Option Nat)
+    (h : ∀ t ∈ other.terms, ∀ x ∈ t.atoms, (conv x).isSome = true) :
+    ∃ res, mine.extendWith other off conv = .ok res := by
+  unfold TermTable.extendWith
+  by_cases he : other.terms.isEmpty = true
+  · simp only [he, if_true]; exact ⟨_, rfl⟩
+  · have he' : other.terms.isEmpty = false := by simpa using he
+    have hany : (other.terms.any (fun t => t.atoms.any (fun a => (conv a).isNone))) = false := by
+      apply List.any_eq_false.mpr
+      intro t ht
+      have : t.atoms.any (fun a => (conv a).isNone) = false := by
+        apply List.any_eq_false.mpr
+        intro x hx
+        have := h t ht x hx
+        cases hc : conv x <;> simp_all
+      simp [this]
+    simp only [he', hany, Bool.false_eq_true, if_false]
+    exact ⟨_, rfl⟩
+
+/-- a term whose atoms all lie below `n` is never superseded by tuples that are non-empty and lie at or above `n` -/
+theorem superseded_false_of_sep (tuples : List (List Nat)) (t : Term) (n : Nat) (ht : ∀ x ∈ t.atoms, x < n)
+    (hu : ∀ u ∈ tuples, u ≠ [] ∧ ∀ y ∈ u, n ≤ y) : superseded tuples t = false := by
+  cases hs : superseded tuples t with
+  | false => rfl
+  | true =>
+    exfalso
+    simp only [superseded, Bool.or_eq_true, List.any_eq_true, decide_eq_true_eq] at hs
+    have key : ∀ u ∈ tuples, ∀ l : List Nat, (∀ y, y ∈ l ↔ y ∈ u) → t.atoms ≠ l := by
+      intro u hmem l hl e
+      obtain ⟨hne, hge⟩ := hu u hmem
+      obtain ⟨x, hx⟩ := List.exists_mem_of_ne_nil _ hne
+      have : x ∈ t.atoms := by rw [e]; exact (hl _).mpr hx
+      have h1 := ht x this
+      have h2 := hge x hx
+      omega
+    rcases hs with ⟨u, hmem, e⟩ | ⟨u, hmem, e⟩
+    · exact key u hmem _ (fun _ => Iff.rfl) e
+    · exact key u hmem _ (fun _ => List.mem_reverse) e
+
+/-- the hypotheses under which one term kind is extended by pure concatenation -/
+structure TabDisjoint (mine other : TermTable) (n m : Nat) : Prop where
+  labels : other.xlabels = mine.xlabels
+  nodup : mine.xlabels.Nodup
+  mineRows : ∀ t ∈ mine.terms, t.extra.length = mine.xlabels.length
+  otherRows : ∀ t ∈ other.terms, t.extra.length = mine.xlabels.length
+  mineIdx : ∀ t ∈ mine.terms, ∀ x ∈ t.atoms, x < n
+  otherIdx : ∀ t ∈ other.terms, t.atoms ≠ [] ∧ ∀ x ∈ t.atoms, x < m
+
+/-- a term of the appended image: atom indices shifted, type shifted -/
+def shiftTerm (n off : Nat) (t : Term) : Term := { t with atoms := t.atoms.map (· + n), ty := t.ty + off }
+
+theorem extendWith_disjoint (mine other : TermTable) (n m off : Nat) (conv : Nat → Option Nat)
+    (hd : TabDisjoint mine other n m) (hconv : ∀ x, x < m → conv x = some (x + n)) :
+    mine.extendWith other off conv
+      = .ok { mine with terms := mine.terms ++ other.terms.map (shiftTerm n off) } := by
+  have hsome : ∀ t ∈ other.terms, ∀ x ∈ t.atoms, (conv x).isSome = true := by
+    intro t ht x hx
+    rw [hconv x ((hd.otherIdx t ht).2 x hx)]; rfl
+  obtain ⟨res, hres⟩ := extendWith_total mine other off conv hsome
+  obtain ⟨h1, h2, h3, _⟩ := extendWith_spec mine other res off conv hres
+  rw [hres]
+  have hl : mergeLabels mine.xlabels other.xlabels = mine.xlabels := by rw [hd.labels, mergeLabels_self]
+  rw [hl] at h1 h2
+  have hnew : other.terms.map (convTerm mine.xlabels other.xlabels off conv) = other.terms.map (shiftTerm n off) := by
+    apply List.map_congr_left
+    intro t ht
+    unfold convTerm shiftTerm
+    have hat : t.atoms.map (fun a => (conv a).getD 0) = t.atoms.map (· + n) := by
+      apply List.map_congr_left
+      intro x hx
+      rw [hconv x ((hd.otherIdx t ht).2 x hx)]; rfl
+    rw [hat, hd.labels, matchRow_self _ hd.nodup _ (hd.otherRows t ht)]
+  have hkeep : mine.terms.filter (fun t => !superseded
+      ((other.terms.map (convTerm mine.xlabels other.xlabels off conv)).map (·.atoms)) t) = mine.terms := by
+    apply List.filter_eq_self.mpr
+    intro t ht
+    rw [hnew, superseded_false_of_sep _ t n (hd.mineIdx t ht)]
+    · rfl
+    · intro u hu
+      simp only [List.map_map, List.mem_map, Function.comp] at hu
+      obtain ⟨w, hw, rfl⟩ := hu
+      obtain ⟨hne, _⟩ := hd.otherIdx w hw
+      refine ⟨by simpa [shiftTerm] using hne, ?_⟩
+      intro y hy
+      obtain ⟨x, _, rfl⟩ := List.mem_map.mp hy
+      omega
+  have hpad : mine.terms.map (padTerm mine.xlabels.length) = mine.terms := by
+    conv => rhs; rw [← List.map_id mine.terms]
+    apply List.map_congr_left
+    intro t ht
+    unfold padTerm
+    rw [padRow_of_length _ _ (hd.mineRows t ht)]; rfl
+  rw [hkeep, hpad, hnew] at h1
+  cases res
+  simp_all
+
+/-- hypotheses under which `a.extend b (some o) []` is pure concatenation: same label lists (without repeats),
+    every extra row as wide as its label list, every term index inside its own structure, no empty term -/
+structure NoMapOK (a b : Atoms) : Prop where
+  labels : b.xlabels = a.xlabels
+  nodup : a.xlabels.Nodup
+  aRows : ∀ r ∈ a.atoms, r.extra.length = a.xlabels.length
+  bRows : ∀ r ∈ b.atoms, r.extra.length = a.xlabels.length
+  bonds : TabDisjoint a.bonds b.bonds a.atoms.length b.atoms.length
+  angles : TabDisjoint a.angles b.angles a.atoms.length b.atoms.length
+  dihedrals : TabDisjoint a.dihedrals b.dihedrals a.atoms.length b.atoms.length
+  impropers : TabDisjoint a.impropers b.impropers a.atoms.length b.atoms.length
+
+/-- `b` stacked after `a`: atoms appended (types + atom offset), terms appended with indices shifted by `|a|` -/
+def stackOn (a b : Atoms) (o : Offsets) : Atoms :=
+  { a with
+    atoms := a.atoms ++ b.atoms.map (fun r => { r with ty := r.ty + o.atom })
+    bonds := { a.bonds with terms := a.bonds.terms ++ b.bonds.terms.map (shiftTerm a.atoms.length o.bond) }
+    angles := { a.angles with terms := a.angles.terms ++ b.angles.terms.map (shiftTerm a.atoms.length o.angle) }
+    dihedrals := { a.dihedrals with
+      terms := a.dihedrals.terms ++ b.dihedrals.terms.map (shiftTerm a.atoms.length o.dihedral) }
+    impropers := { a.impropers with
+      terms := a.impropers.terms ++ b.impropers.terms.map (shiftTerm a.atoms.length o.improper) } }
+
+theorem extConv_nomap (a b : Atoms) (x : Nat) (hx : x < b.atoms.length) :
+    extConv a b [] x = some (x + a.atoms.length) := by
+  have hto : extToAdd b [] = List.range b.atoms.length := by
+    unfold extToAdd
+    apply List.filter_eq_self.mpr
+    intro i _; rfl
+  have hl : lookupLast [] x = none := rfl
+  simp only [extConv, hl, hto, indexOf?_range _ _ hx, Option.map_some]
+
+theorem extend_nomap (a b : Atoms) (o : Offsets) (h : NoMapOK a b) :
+    a.extend b (some o) [] = .ok (stackOn a b o) := by
+  rw [extend_eq_core]
+  show extendCore a o b [] = _
+  unfold extendCore
+  have g1 : (([] : List (Nat × Nat)).map (·.1)).Nodup' = true := rfl
+  have g2 : ([] : List (Nat × Nat)).any (fun kv => decide (kv.1 ≥ b.atoms.length) || decide (kv.2 ≥ a.atoms.length)) = false := rfl
+  simp only [g1, g2, Bool.not_true, Bool.false_eq_true, if_false]
+  rw [extendWith_disjoint _ _ _ _ _ _ h.bonds (extConv_nomap a b),
+    extendWith_disjoint _ _ _ _ _ _ h.angles (extConv_nomap a b),
+    extendWith_disjoint _ _ _ _ _ _ h.dihedrals (extConv_nomap a b),
+    extendWith_disjoint _ _ _ _ _ _ h.impropers (extConv_nomap a b)]
+  simp only [bind, Except.bind, pure, Except.pure]
+  have hl : extLabels a b = a.xlabels := by unfold extLabels; rw [h.labels, mergeLabels_self]
+  have hpad : extPadded a b = a.atoms := by
+    unfold extPadded
+    conv => rhs; rw [← List.map_id a.atoms]
+    apply List.map_congr_left
+    intro r hr
+    rw [hl, padRow_of_length _ _ (h.aRows r hr)]; rfl
+  have hadd : extAdded a b o [] = b.atoms.map (fun r => { r with ty := r.ty + o.atom }) := by
+    rw [extAdded_eq]
+    have hf : (b.atoms.zipIdx).filter (fun q => !(([] : List (Nat × Nat)).map (·.1)).contains q.2) = b.atoms.zipIdx :=
+      List.filter_eq_self.mpr (fun _ _ => rfl)
+    rw [hf]
+    have hm : (b.atoms.zipIdx).map (fun q => appendRow a b o q.1) = (b.atoms.zipIdx.map Prod.fst).map (appendRow a b o) := by
+      rw [List.map_map]; rfl
+    rw [hm, List.zipIdx_map_fst]
+    apply List.map_congr_left
+    intro r hr
+    unfold appendRow
+    rw [hl, h.labels, matchRow_self _ h.nodup _ (h.bRows r hr)]
+  simp only [List.foldl_nil, hpad, hadd, hl]
+  rfl
+
+/-! ### term indices stay inside; extension of an already extended structure (for `extend_twice`) -/
+
+/-- every atom index used by the terms of a table is `< n` -/
+def TabInside (t : TermTable) (n : Nat) : Prop := ∀ u ∈ t.terms, ∀ x ∈ u.atoms, x < n
+
+instance (t : TermTable) (n : Nat) : Decidable (TabInside t n) := by unfold TabInside; infer_instance
+
+/-- no term of the table has an empty atom tuple -/
+def TabNonEmpty (t : TermTable) : Prop := ∀ u ∈ t.terms, u.atoms ≠ []
+
+instance (t : TermTable) : Decidable (TabNonEmpty t) := by unfold TabNonEmpty; infer_instance
+
+theorem extendWith_inside (mine other res : TermTable) (off : Nat) (conv : Nat → Option Nat) (n N : Nat)
+    (h : mine.extendWith other off conv = .ok res) (hm : TabInside mine n) (hn : n ≤ N)
+    (hc : ∀ t ∈ other.terms, ∀ x ∈ t.atoms, ∃ y, conv x = some y ∧ y < N) : TabInside res N := by
+  obtain ⟨h1, _, _, _⟩ := extendWith_spec mine other res off conv h
+  intro u hu x hx
+  rw [h1] at hu
+  rcases List.mem_append.mp hu with hu | hu
+  · obtain ⟨t, ht, rfl⟩ := List.mem_map.mp hu
+    have := hm t (List.mem_filter.mp ht).1 x (by simpa [padTerm] using hx)
+    omega
+  · obtain ⟨t, ht, rfl⟩ := List.mem_map.mp hu
+    simp only [convTerm, List.mem_map] at hx
+    obtain ⟨x0, hx0, rfl⟩ := hx
+    obtain ⟨y, hy, hlt⟩ := hc t ht x0 hx0
+    rw [hy]; exact hlt
+
+/-- the part of a term the force field sees: atom tuple and type id -/
+def Term.core (t : Term) : List Nat × Nat := (t.atoms, t.ty)
+
+/-- extending by terms that all land at or above `n` while every existing index is below `n`:
+    nothing is superseded, the new terms are the other's terms shifted by `n` with type `+ off` -/
+theorem extendWith_sep_core (mine other res : TermTable) (off : Nat) (conv : Nat → Option Nat) (n m : Nat)
+    (h : mine.extendWith other off conv = .ok res) (hm : TabInside mine n)
+    (ho : TabNonEmpty other) (hi : TabInside other m) (hconv : ∀ x, x < m → conv x = some (x + n)) :
+    res.terms.map Term.core
+      = mine.terms.map Term.core ++ other.terms.map (fun t => (t.atoms.map (· + n), t.ty + off)) := by
+  obtain ⟨h1, _, _, _⟩ := extendWith_spec mine other res off conv h
+  have hkeep : mine.terms.filter (fun t => !superseded
+      ((other.terms.map (convTerm (mergeLabels mine.xlabels other.xlabels) other.xlabels off conv)).map (·.atoms)) t)
+        = mine.terms := by
+    apply List.filter_eq_self.mpr
+    intro t ht
+    rw [superseded_false_of_sep _ t n (hm t ht)]
+    · rfl
+    · intro u hu
+      simp only [List.map_map, List.mem_map, Function.comp] at hu
+      obtain ⟨w, hw, rfl⟩ := hu
+      refine ⟨by simpa [convTerm] using ho w hw, ?_⟩
+      intro y hy
+      simp only [convTerm, List.mem_map] at hy
+      obtain ⟨x, hx, rfl⟩ := hy
+      rw [hconv x (hi w hw x hx)]
+      simp
+  rw [hkeep] at h1
+  rw [h1, List.map_append, List.map_map, List.map_map]
+  congr 1
+  apply List.map_congr_left
+  intro t ht
+  simp only [Function.comp, Term.core, convTerm, Prod.mk.injEq, and_true]
+  apply List.map_congr_left
+  intro x hx
+  rw [hconv x (hi t ht x hx)]; rfl
 
 end Mofun
